@@ -57,11 +57,15 @@ int main(int argc, char** argv) {
     else if (hc_is(0, "append")) { char* a = arg(2); HC_TRY(append(s, $S(a))); emit("append", o, 0, 0, a, hc_exc, 0); }
     else if (hc_is(0, "rem")) { char* a = arg(2); HC_TRY(rem(s, $S(a))); emit("rem", o, 0, 0, a, hc_exc, 0); }
     else if (hc_is(0, "mem")) { char* a = arg(2); volatile long long r = 0; HC_TRY(r = mem(s, $S(a)) ? 1 : 0); emit("mem", o, 0, 0, a, hc_exc, r); }
-    else if (hc_is(0, "resize")) { long long n = hc_int(2); HC_TRY(resize(s, (size_t)n)); emit("resize", o, 0, n, "", hc_exc, 0); }
+    else if (hc_is(0, "resize")) { long long n = hc_int(2); HC_TRY(resize(s, (size_t)n));
+      /* r: the byte at index n, the last one of the room asked for (a caller may fill n characters in: it must be the terminator) */
+      emit("resize", o, 0, n, "", hc_exc, hc_exc[0] ? 0 : (long long)(unsigned char)((struct String*)s)->val[n]); }
     else if (hc_is(0, "remint")) { HC_TRY(rem(s, $I(5))); emit("remint", o, 0, 0, "", hc_exc, 0); }
     else if (hc_is(0, "resizehuge")) { HC_TRY(resize(s, (size_t)1 << 62)); emit("resizehuge", o, 0, 0, "", hc_exc, 0); }
     else if (hc_is(0, "printat")) { long long pos = hc_int(2); char* a = arg(3); volatile long long r = 0; HC_TRY(r = print_to(s, (int)pos, "%s", $S(a))); emit("printat", o, 0, pos, a, hc_exc, r); }
     /* a formatted write whose format has literal text, two conversions and a %% between them */
+    /* the target itself as the %s argument of a formatted write into it */
+    else if (hc_is(0, "printself")) { long long pos = hc_int(2); volatile long long r = 0; HC_TRY(r = print_to(s, (int)pos, "%s", s)); emit("printself", o, 0, pos, "", hc_exc, r); }
     else if (hc_is(0, "printpct")) { long long pos = hc_int(2); char* a = arg(3); volatile long long r = 0; HC_TRY(r = print_to(s, (int)pos, "%s%%%s|", $S(a), $S(a))); emit("printpct", o, 0, pos, a, hc_exc, r); }
     else if (hc_is(0, "assigno")) { int p = (int)hc_int(2); HC_TRY(assign(s, objs_[p])); emit("assigno", o, p, 0, "", hc_exc, 0); }
     else if (hc_is(0, "concato")) { int p = (int)hc_int(2); HC_TRY(concat(s, objs_[p])); emit("concato", o, p, 0, "", hc_exc, 0); }
